@@ -4,7 +4,7 @@
 //!   c16 corr <seed> <nmax> lag <L> <LF>  Lagrange kernel constraints: trace lengths 2^1..2^L on three fields (+ 2^14, 2^16 on f64),
 //!                                        zero pattern of every divisor over the whole trace domain; for n <= 2^LF the model
 //!                                        side evaluates its divisor at every domain point, above it uses the proved row sets
-//!   c16 falsify <seed> <nmax>        -> JSON lines (one per property failure found against the brute-force oracle),
+//!   c16 falsify <seed> <nmax> [<L>]  -> JSON lines (one per property failure found against the brute-force oracle),
 //!                                        then "evaluations=<n> failures=<k>"
 //! Trace lengths: all powers of two 8..=nmax (nmax = 64 quick, 256 thorough), fully enumerated.
 use std::collections::BTreeSet;
@@ -489,8 +489,13 @@ fn corr_lag<B: LFld>(r: &mut Rng, seed: u64, l: u32, lf: u32, out: &mut Vec<Stri
     }
     // frames (from_lagrange_kernel_column_poly), numerators, evaluate_and_combine, boundary constraint on honest and
     // corrupted Lagrange kernel columns: every row of the trace domain (x = z = g^i) and points outside it
-    let full: &[usize] = if B::NAME == "f64" { &[4, 8, 16, 32] } else { &[4, 8, 16] };
-    for &n in full.iter().chain(if B::NAME == "f64" { [64usize].iter() } else { [].iter() }) {
+    // (the model's field arithmetic on inductive integers: 84 us (f64) .. 300 us (f128) per multiplication, 10 ms per inversion)
+    let heavy = lf >= 10;
+    let full: Vec<usize> = match (B::NAME, heavy) {
+        ("f64", false) => vec![4, 8, 16, 32], ("f64", true) => vec![4, 8, 16, 32, 64],
+        ("f62", _) => vec![4, 8, 16], (_, false) => vec![4, 8], _ => vec![4, 8, 16],
+    };
+    for &n in full.iter() {
         let v = n.ilog2() as usize;
         let g: B = root(n);
         let rs: Vec<B> = (0..v).map(|_| rand_elem(r)).collect();
@@ -532,7 +537,8 @@ fn corr_lag<B: LFld>(r: &mut Rng, seed: u64, l: u32, lf: u32, out: &mut Vec<Stri
     // ill-sized inputs: frames, random elements and coefficient vectors of every length 0..v+2 (explicit frames, constraints
     // built directly): which calls panic, what the zips truncate
     for v in [1usize, 2, 3] {
-        for fl in 0..=v + 2 { for rl in 0..=v + 2 { for cl in (0..=v + 1).rev().take(3) {
+        if B::NAME != "f64" && v != 2 { continue; }
+        for fl in 0..=v + 2 { for rl in v - 1..=v + 1 { for cl in v - 1..=v + 1 {
             let frame: Vec<B> = (0..fl).map(|_| rand_elem(r)).collect();
             let rs: Vec<B> = (0..rl).map(|_| rand_elem(r)).collect();
             let coefs: Vec<B> = (0..cl).map(|_| rand_elem(r)).collect();
@@ -750,6 +756,150 @@ fn falsify_long_traces(t: &mut Tally) {
     }
 }
 
+/// Lagrange kernel constraints against their DEFINITION (issue #240 / the comments of air/src/air/lagrange): log2(n)
+/// constraints; constraint k (from 1) is r[v-k]*c(x) - (1 - r[v-k])*c(g^(2^(v-k)) x) over the subgroup of size 2^(k-1), i.e.
+/// the rows that are multiples of n / 2^(k-1); the boundary constraint pins row 0.  All reference values in u128 arithmetic.
+fn falsify_lagrange<B: LFld>(r: &mut Rng, seed: u64, l: u32, t: &mut Tally) {
+    let p = B::P;
+    for n in lag_lengths(B::NAME, l) {
+        let v = n.ilog2() as usize;
+        let gb: B = root(n);
+        let g = gb.to_u128();
+        let inp = format!("{} Lagrange kernel constraints, trace length {}", B::NAME, n);
+        t.evals += 1;
+        let (ncoef, cons) = match catch(AssertUnwindSafe(|| lag_from_air::<B>(n, seed))) {
+            Err(m) => { t.fail("Lagrange kernel constraints cannot be built", inp, "constraints".into(), m); continue; }
+            Ok(x) => x,
+        };
+        let tc = &cons.transition;
+        if ncoef != v { t.fail("number of Lagrange kernel transition coefficients drawn is not log2(trace length)", inp.clone(), format!("{}", v), format!("{}", ncoef)); }
+        if tc.num_constraints() != v { t.fail("number of Lagrange kernel transition constraints is not log2(trace length)", inp.clone(), format!("{}", v), format!("{}", tc.num_constraints())); }
+        let ndiv = lag_num_divisors(tc, v + 2);
+        if ndiv != v { t.fail("number of Lagrange kernel constraint divisors is not log2(trace length)", inp.clone(), format!("{}", v), format!("{}", ndiv)); }
+        // ---- enforcement domains: divisor k vanishes on exactly the multiples of n / 2^(k-1)
+        let mut union = vec![false; n];
+        for k in 1..=v {
+            let stride = n >> (k - 1);
+            match lag_divisor_pattern(tc, k, n) {
+                Err(m) => { t.evals += 1; t.fail("divisor of a Lagrange kernel constraint cannot be evaluated", format!("{} constraint {}", inp, k), "a value".into(), m); }
+                Ok(bits) => {
+                    t.evals += n;
+                    for i in 0..n { union[i] |= bits[i]; }
+                    let bad: Vec<usize> = (0..n).filter(|&i| bits[i] != (i % stride == 0)).take(6).collect();
+                    if !bad.is_empty() {
+                        t.fail("Lagrange kernel constraint divisor zero set", format!("{} constraint {} rows {:?}", inp, k, bad), format!("zero exactly on the multiples of {}", stride),
+                            format!("{:?}", bad.iter().map(|&i| bits[i]).collect::<Vec<_>>()));
+                    }
+                    for _ in 0..2 {
+                        t.evals += 1;
+                        let x = r.next_u128() % p;
+                        let want = submod(powmod(x, 1u128 << (k - 1), p), 1, p);
+                        let got = tc.evaluate_ith_divisor::<B>(k - 1, B::from_u128(x)).to_u128();
+                        if got != want { t.fail("Lagrange kernel constraint divisor is not x^(2^(k-1)) - 1", format!("{} constraint {} x={:x}", inp, k, x), format!("{:x}", want), format!("{:x}", got)); }
+                    }
+                }
+            }
+        }
+        // the union of the enforcement domains is the set of even rows (the domain of the last constraint)
+        t.evals += 1;
+        let bad: Vec<usize> = (0..n).filter(|&i| union[i] != (i % 2 == 0)).take(6).collect();
+        if !bad.is_empty() { t.fail("union of the Lagrange kernel enforcement domains is not the set of even rows", format!("{} rows {:?}", inp, bad), "even rows".into(), format!("{:?}", bad.iter().map(|&i| union[i]).collect::<Vec<_>>())); }
+        if n > 1024 { continue; }
+        // ---- boundary constraint: denominator zero on row 0 only; asserted value = prod (1 - r_i)
+        let rs: Vec<u128> = (0..v).map(|_| 2 + r.next_u128() % (p - 2)).collect();
+        let coefs: Vec<u128> = (0..v).map(|_| 1 + r.next_u128() % (p - 1)).collect();
+        let cb = 1 + r.next_u128() % (p - 1);
+        let rsb: Vec<B> = rs.iter().map(|&x| B::from_u128(x)).collect();
+        let cons = match catch(AssertUnwindSafe(|| lag_with::<B>(n, &coefs.iter().map(|&x| B::from_u128(x)).collect::<Vec<_>>(), B::from_u128(cb), &rsb))) {
+            Err(m) => { t.fail("Lagrange kernel constraints cannot be built", inp, "constraints".into(), m); continue; }
+            Ok(c) => c,
+        };
+        let tc = &cons.transition;
+        let dom: Vec<u128> = (0..n).map(|i| powmod(g, i as u128, p)).collect();
+        for i in 0..n {
+            t.evals += 1;
+            let z = cons.boundary.evaluate_denominator_at(B::from_u128(dom[i])) == B::ZERO;
+            if z != (i == 0) { t.fail("Lagrange kernel boundary constraint denominator zero set", format!("{} row {}", inp, i), format!("{}", i == 0), format!("{}", z)); }
+        }
+        let av = rs.iter().fold(1u128, |a, &x| mulmod(a, submod(1, x, p), p));
+        // ---- numerators on the honest column and on columns corrupted in one cell
+        let honest: Vec<u128> = (0..n).map(|row| rs.iter().enumerate().fold(1u128, |a, (b, &x)| mulmod(a, if row & (1 << b) == 0 { submod(1, x, p) } else { x }, p))).collect();
+        t.evals += 1;
+        if honest[0] != av { t.fail("reference column: cell 0 is not the asserted value", inp.clone(), format!("{:x}", av), format!("{:x}", honest[0])); }
+        let frame_at = |col: &[u128], i: usize| -> LagrangeKernelEvaluationFrame<B> {
+            let mut f = vec![B::from_u128(col[i])];
+            for j in 0..v { f.push(B::from_u128(col[(i + (1 << j)) % n])); }
+            LagrangeKernelEvaluationFrame::new(f)
+        };
+        // numerator k at row i, from the definition
+        let num_ref = |col: &[u128], k: usize, i: usize| -> u128 {
+            let rk = rs[v - k];
+            mulmod(coefs[k - 1], submod(mulmod(rk, col[i], p), mulmod(submod(1, rk, p), col[(i + (n >> k)) % n], p), p), p)
+        };
+        let mut columns: Vec<(String, Vec<u128>, usize)> = vec![("honest".into(), honest.clone(), 0)];
+        for k in 1..=v {
+            let j = (2 * r.below(1u64 << (k - 1)) as usize + 1) << (v - k);
+            let mut c = honest.clone();
+            c[j] = addmod(c[j], 1 + r.next_u128() % (p - 1), p);
+            columns.push((format!("corrupted in row {} (first read by constraint {})", j, k), c, k));
+        }
+        for (name, col, kc) in &columns {
+            let mut nonzero_on_domain = vec![0usize; v + 1];
+            for i in 0..n {
+                let fr = frame_at(col, i);
+                for k in 1..=v {
+                    t.evals += 1;
+                    match catch(AssertUnwindSafe(|| tc.evaluate_ith_numerator::<B>(&fr, &rsb, k - 1))) {
+                        Err(m) => t.fail("evaluate_ith_numerator panics on a well-sized frame", format!("{} {} row {} constraint {}", inp, name, i, k), "a value".into(), m),
+                        Ok(got) => {
+                            let want = num_ref(col, k, i);
+                            if got.to_u128() != want { t.fail("Lagrange kernel numerator differs from its definition", format!("{} {} row {} constraint {}", inp, name, i, k), format!("{:x}", want), hx(got)); }
+                            if i % (n >> (k - 1)) == 0 && got != B::ZERO { nonzero_on_domain[k] += 1; }
+                        }
+                    }
+                }
+            }
+            for k in 1..=v {
+                t.evals += 1;
+                if *kc == 0 || k < *kc {
+                    // constraint k does not read the corrupted cell: it must hold on its whole enforcement domain
+                    if nonzero_on_domain[k] != 0 { t.fail("numerator of a satisfied Lagrange kernel constraint is non-zero on its enforcement domain", format!("{} {} constraint {}", inp, name, k), "0 rows".into(), format!("{} rows", nonzero_on_domain[k])); }
+                } else if k == *kc && nonzero_on_domain[k] == 0 {
+                    t.fail("a corrupted cell is not detected by the constraint that reads it", format!("{} {} constraint {}", inp, name, k), "non-zero numerator on an enforced row".into(), "all zero".into());
+                }
+            }
+        }
+        // ---- out-of-domain: frame from the column polynomial, evaluate_and_combine = sum over ALL log2(n) constraints
+        if n < 4 || n > 64 { continue; }
+        for (name, col, _) in columns.iter().take(3) {
+            let poly = lag_interpolate(&col.iter().map(|&x| B::from_u128(x)).collect::<Vec<B>>());
+            let pr: Vec<u128> = poly.iter().map(|e| e.to_u128()).collect();
+            let horner = |x: u128| pr.iter().rev().fold(0u128, |a, &c| addmod(mulmod(a, x, p), c, p));
+            for _ in 0..3 {
+                t.evals += 1;
+                let z = r.next_u128() % p;
+                let fr = LagrangeKernelEvaluationFrame::from_lagrange_kernel_column_poly(&poly, B::from_u128(z));
+                let fref: Vec<u128> = std::iter::once(horner(z)).chain((0..v).map(|j| horner(mulmod(z, powmod(g, 1u128 << j, p), p)))).collect();
+                if fr.inner().iter().map(|e| e.to_u128()).collect::<Vec<_>>() != fref {
+                    t.fail("Lagrange kernel frame is not c(z), c(gz), c(g^2 z), .., c(g^(2^(v-1)) z)", format!("{} {} z={:x}", inp, name, z), format!("{:x?}", fref), hxl(fr.inner()));
+                }
+                let want = (1..=v).fold(0u128, |acc, k| {
+                    let rk = rs[v - k];
+                    let num = mulmod(coefs[k - 1], submod(mulmod(rk, fref[0], p), mulmod(submod(1, rk, p), fref[v - k + 1], p), p), p);
+                    addmod(acc, mulmod(num, invmod(submod(powmod(z, 1u128 << (k - 1), p), 1, p), p), p), p)
+                });
+                match catch(AssertUnwindSafe(|| tc.evaluate_and_combine::<B>(&fr, &rsb, B::from_u128(z)))) {
+                    Err(m) => t.fail("evaluate_and_combine panics", format!("{} {} z={:x}", inp, name, z), format!("{:x}", want), m),
+                    Ok(got) => if got.to_u128() != want { t.fail("evaluate_and_combine is not the sum of all log2(n) constraints, each divided by its divisor", format!("{} {} z={:x}", inp, name, z), format!("{:x}", want), hx(got)); },
+                }
+                let bw = mulmod(mulmod(submod(fref[0], av, p), cb, p), invmod(submod(z, 1, p), p), p);
+                let bg = cons.boundary.evaluate_at(B::from_u128(z), &fr).to_u128();
+                if bg != bw { t.fail("Lagrange kernel boundary constraint is not coef * (c(z) - prod(1 - r_i)) / (z - 1)", format!("{} {} z={:x}", inp, name, z), format!("{:x}", bw), format!("{:x}", bg)); }
+            }
+        }
+    }
+}
+
 fn falsify_int(nmax: usize, t: &mut Tally) {
     type B = f64::BaseElement;
     // constructors accept exactly the well-formed descriptions
@@ -827,6 +977,10 @@ fn main() {
             falsify_field::<f64::BaseElement>(&mut r, nmax, &mut t);
             falsify_field::<f62::BaseElement>(&mut r, nmax, &mut t);
             falsify_field::<f128::BaseElement>(&mut r, nmax, &mut t);
+            let l: u32 = args.get(4).and_then(|s| s.parse().ok()).unwrap_or(12);
+            falsify_lagrange::<f64::BaseElement>(&mut r, seed, l, &mut t);
+            falsify_lagrange::<f62::BaseElement>(&mut r, seed, l, &mut t);
+            falsify_lagrange::<f128::BaseElement>(&mut r, seed, l, &mut t);
             println!("evaluations={} failures={}", t.evals, t.fails);
         }
         Some("probe") => {
